@@ -165,6 +165,8 @@ long alloc_points_taken();
 // fatal harness error: message, exit code 2
 [[noreturn]] void harness_error(const char *fmt, ...);
 
+void rearm_watchdog();   // interval timers are not inherited by fork(): call in a forked child that runs simulations
+
 // installed by engines' main(): turn crashes of the code under test into result lines
 void install_crash_reporter(void (*on_crash)(const char *what));
 
